@@ -541,10 +541,29 @@ def get_parallel_type_object(_):
     return Scalar
 
 
+def _positive_zeros(obj):
+    """Replace -0.0 by 0.0 in float data: the two compare equal, so that they
+    have to hash alike"""
+    if isinstance(obj, pd.DataFrame):
+        floats = [
+            i
+            for i, dtype in enumerate(obj.dtypes)
+            if pd.api.types.is_float_dtype(dtype)
+        ]
+        if floats:
+            obj = obj.copy(deep=False)
+            for i in floats:
+                obj.isetitem(i, obj.iloc[:, i] + 0.0)
+    elif pd.api.types.is_float_dtype(obj.dtype):
+        obj = obj + 0.0
+    return obj
+
+
 @hash_object_dispatch.register((pd.DataFrame, pd.Series, pd.Index))
 def hash_object_pandas(
     obj, index=True, encoding="utf8", hash_key=None, categorize=True
 ):
+    obj = _positive_zeros(obj)
     return pd.util.hash_pandas_object(
         obj, index=index, encoding=encoding, hash_key=hash_key, categorize=categorize
     )
